@@ -182,7 +182,7 @@ func (s *Sched) deadlock(what string) {
 }
 
 func (p *Path) concurrencyViolation(kind, msg string) {
-	hit, _ := p.activeRegions()
+	hit, _ := p.activeRegions(kind)
 	r, m := p.queryModel()
 	if r == Sat {
 		p.recordViolation(kind, kind, msg, hit, m)
